@@ -38,6 +38,7 @@ type c18Cfg struct {
 	Strategy string `json:"strategy"`
 	Threads  string `json:"threads"` // subset of P S A G T E
 	Sink     string `json:"sink"`    // plain | panic | reenter-stats | reenter-addsink | block
+	Rows     int    `json:"rows_per_producer,omitempty"` // default 2
 	Buf0     bool   `json:"unbuffered_data_channel,omitempty"` // DataChannelSize 0 (accepted by the configuration): every Emit overflows unless the processor is waiting
 }
 
@@ -45,6 +46,9 @@ func (c c18Cfg) name() string {
 	n := fmt.Sprintf("%s-%s-%s-%s", c.Kind, c.Strategy, c.Threads, c.Sink)
 	if c.Buf0 {
 		n += "-buf0"
+	}
+	if c.Rows > 0 {
+		n += fmt.Sprintf("-rows%d", c.Rows)
 	}
 	return n
 }
@@ -76,6 +80,12 @@ func c18Configs(tier string) []c18Cfg {
 	}
 	out = append(out, c18Cfg{Kind: "direct", Strategy: "drop", Threads: "E", Sink: "panic"}, c18Cfg{Kind: "direct", Strategy: "drop", Threads: "PE", Sink: "panic"}, c18Cfg{Kind: "analytic", Strategy: "block", Threads: "PE", Sink: "panic"},
 		c18Cfg{Kind: "direct", Strategy: "drop", Threads: "P", Sink: "panic-async"}, c18Cfg{Kind: "counting", Strategy: "drop", Threads: "P", Sink: "panic-async"}, c18Cfg{Kind: "direct", Strategy: "drop", Threads: "PS", Sink: "panic-async"}, c18Cfg{Kind: "tumbling-evt", Strategy: "drop", Threads: "PS", Sink: "panic-async"})
+	// a producer parked inside Emit on a full input channel (the sink holds the pipeline until Stop has returned)
+	// must be released by Stop, under every strategy
+	for _, st := range []string{"block", "drop", "expand"} {
+		out = append(out, c18Cfg{Kind: "direct", Strategy: st, Threads: "PS", Sink: "gate", Rows: 5})
+	}
+	out = append(out, c18Cfg{Kind: "counting", Strategy: "block", Threads: "PS", Sink: "gate", Rows: 5})
 	// (DataChannelSize 0 - an unbuffered input channel - is exercised by the free-running pass only: the scheduler
 	// models buffered channels and closed-only unbuffered ones, not rendezvous sends inside select)
 	if tier == "thorough" {
@@ -120,6 +130,8 @@ func c18Run(cfg c18Cfg) explore.RunFunc {
 			}
 			stopReturned := false
 			blockCh := make(chan struct{}, 1) // never written: a receive blocks for ever
+			gateCh := make(chan struct{}, 1)
+			gateOpen := false
 			sink := func(rows []map[string]any) {
 				o.sinkCalls++
 				if stopReturned {
@@ -140,6 +152,8 @@ func c18Run(cfg c18Cfg) explore.RunFunc {
 					}
 				case "block":
 					sched.Recv(blockCh)
+				case "gate":
+					sched.Recv(gateCh) // released (closed) by the stopping thread after Stop has returned
 				}
 			}
 			if cfg.Sink == "panic-async" {
@@ -171,6 +185,9 @@ func c18Run(cfg c18Cfg) explore.RunFunc {
 						defer wg.Done()
 						s.Emit(Row{"id": base + 1, "k": "a", "v": 1, "ts": 1000})
 						s.Emit(Row{"id": base + 2, "k": "a", "v": 2, "ts": 5000})
+						for j := 3; j <= cfg.Rows; j++ {
+							s.Emit(Row{"id": base + j, "k": "a", "v": j, "ts": 5000 + j})
+						}
 					})
 				case 'S':
 					sched.Go(func() {
@@ -179,6 +196,10 @@ func c18Run(cfg c18Cfg) explore.RunFunc {
 						s.Stop()
 						o.stopVirtualNs = sched.Cur().Elapsed() - t0
 						stopReturned = true
+						if cfg.Sink == "gate" && !gateOpen {
+							gateOpen = true
+							sched.Close(gateCh)
+						}
 					})
 				case 'A':
 					sched.Go(func() {
@@ -235,9 +256,10 @@ func c18Oracle(cfg c18Cfg, res *sched.Result, o *c18Obs) *explore.Failure {
 		return fail("livelock", "step cap hit")
 	}
 	const grace = int64(5e9)
-	if cfg.Sink == "block" {
-		// a sink that never returns: Stop must still return, by its grace timer
-		if o.stopVirtualNs > grace || o.secondStopNs > grace {
+	if cfg.Sink == "block" || cfg.Sink == "gate" {
+		// a sink that never returns (or only after Stop has returned): Stop must still return, by its grace timer
+		// (the grace period plus the sub-millisecond retry waits a strategy may add before Stop gets to its join)
+		if o.stopVirtualNs > grace+int64(50e6) || o.secondStopNs > grace+int64(50e6) {
 			return fail("stop-exceeds-grace", fmt.Sprintf("Stop took %d ns of virtual time", o.stopVirtualNs))
 		}
 		return nil
